@@ -11,7 +11,7 @@ CONSTANTS
   OrphanMetaKept = FALSE
   CorruptIgnoresMeta = FALSE
   MayRelease = FALSE
-  GraceTimer = "oracle"
+  GraceTimer = "file"
 INVARIANTS CSafe
 PROPERTIES ClientsAttach
 CHECK_DEADLOCK FALSE
